@@ -32,7 +32,8 @@ TRUSTED = [
 ASSUMPTIONS = [
     "identifiers are non-empty, do not start with '.' or '/', and are lower-case ASCII [a-z0-9_.-] (the generated domain), plus the "
     "spellings 'results/<id>', 'logs/<id>' (SQLite) and 'sub/<id>' (directory store); store suffixes are 'fasta', 'fa', 'json'; limit=None; single process",
-    "identifiers with compression suffixes (.gz) occur only in the model-vs-code correspondence, not in the spec-level search",
+    "identifiers with compression suffixes (.gz) occur only in the model-vs-code correspondence, not in the spec-level search, and are not combined "
+    "with the sub-directory spellings (a gzip-compressed stray file under md5/ makes md5() raise UnicodeDecodeError)",
     "after an operation that raises FileNotFoundError inside the drop loop the rest of that history is not compared "
     "(which members were already removed depends on the directory listing order)",
     "io.py writer apps (write_json/write_seqs/write_db) are exercised only through the store methods they call",
@@ -339,7 +340,7 @@ def gen_history(rng, kind, sfx, pool, nmax=40, p_obs=0.25, every_obs=False, syno
         spelled = uid
         if synonyms and rng.random() < (0.3 if kind == "sql" else 0.08) and (kind == "sql" or "." not in uid):
             spelled = ("results/" if kind == "sql" else "sub/") + uid
-        elif synonyms and kind == "dir" and subdirs and rng.random() < subdirs:
+        elif synonyms and kind == "dir" and subdirs and not uid.endswith((".gz", ".bz2", ".zip")) and rng.random() < subdirs:
             # an identifier that starts with one of the store's own sub-directories
             spelled = rng.choice(["logs/", "not_completed/", "md5/"]) + uid
         if r < 0.33:
